@@ -243,3 +243,29 @@ def digest_model(ck: Checker) -> "DigestModel":
         m.oid_ok = m.oid_ok and ok
     m.result_bound = bool(aliases) and any(a.startswith("self.") for a in aliases)
     return m
+
+
+def is_metafree_as_bytes(ck, e) -> bool:
+    """`self.as_bytes()` / `self.as_bytes(with_meta=False)` / `self.as_bytes(False)`: the metadata-free listing (an
+    omitted argument counts only while the parameter's default is the constant False)."""
+    import ast as _ast
+
+    from ..loader import norm as _norm
+
+    if not (isinstance(e, _ast.Call) and isinstance(e.func, _ast.Attribute) and e.func.attr == "as_bytes" and _norm(e.func.value) == "self"):
+        return False
+    ab = ck.prog.func("hashfile.tree", "Tree.as_bytes")
+    arg = None
+    if e.args:
+        arg = e.args[0]
+    for k in e.keywords:
+        if k.arg == "with_meta":
+            arg = k.value
+        elif k.arg is None or k.arg != "with_meta":
+            return False
+    if len(e.args) > 1:
+        return False
+    if arg is None:
+        d = ab.param_default("with_meta") if ab.has_param("with_meta") else None
+        return isinstance(d, _ast.Constant) and d.value is False
+    return isinstance(arg, _ast.Constant) and arg.value is False
